@@ -167,4 +167,136 @@ theorem merge_subtrees_eq_spec (key : CV) (flags : UInt8) (l r : CV) :
 
 example : (2048 : Nat) = 2 ^ 1 * 2 ^ 10 := by decide
 
+/-! ### every valid decomposition -/
+
+/-- a decomposition of (a subtree of) the BLAKE3 tree: a `piece` is hashed by one hasher
+(`set_input_offset`, any updates, `finalize_non_root`); a `merge` joins two decompositions with
+`merge_subtrees_non_root`, to any nesting depth -/
+inductive Decomp where
+  | piece (m : List UInt8)
+  | merge (l r : Decomp)
+
+def Decomp.bytes : Decomp → List UInt8
+  | .piece m => m
+  | .merge l r => l.bytes ++ r.bytes
+
+/-- the decomposition respects `left_subtree_len`: every merge splits its bytes at the largest
+power-of-two number of chunks strictly below the total; pieces are non-empty -/
+def Decomp.Valid : Decomp → Prop
+  | .piece m => m ≠ []
+  | .merge l r => l.Valid ∧ r.Valid ∧ 1024 < l.bytes.length + r.bytes.length ∧
+      l.bytes.length = Hs.leftLen 10 (l.bytes.length + r.bytes.length)
+
+/-- what the hazmat API computes for a decomposition placed at chunk counter `t0`: pieces by
+`finalize_non_root` (= `Spec.subtreeCV`, by `finalize_non_root_eq_subtree_cv`), merges by
+`merge_subtrees_non_root` (= `Spec.parentCV`, by `merge_subtrees_eq_spec`) with the right half's
+offset advanced by the left half's length -/
+def Decomp.cv (key : CV) (flags : UInt8) : Nat → Decomp → CV
+  | t0, .piece m => Spec.subtreeCV key flags t0 m
+  | t0, .merge l r => Spec.parentCV key flags (l.cv key flags t0) (r.cv key flags (t0 + l.bytes.length / 1024))
+
+theorem Decomp.bytes_pos (d : Decomp) (h : d.Valid) : 0 < d.bytes.length := by
+  cases d with
+  | piece m => exact List.length_pos_iff.mpr h
+  | merge l r => simp only [Decomp.bytes, List.length_append]; have := h.2.2.1; omega
+
+/-- **Every valid decomposition, at any nesting, computes the subtree's chaining value.** -/
+theorem decomp_cv (key : CV) (flags : UInt8) (d : Decomp) (t0 : Nat) (h : d.Valid) :
+    d.cv key flags t0 = Spec.subtreeCV key flags t0 d.bytes := by
+  induction d generalizing t0 with
+  | piece m => rfl
+  | merge l r ihl ihr =>
+    obtain ⟨vl, vr, hn, hs⟩ := h
+    obtain ⟨a, f1, f2, f3, _, f5, _⟩ := Hs.leftLen_facts 10 (l.bytes.length + r.bytes.length) (by simpa using hn)
+    have hr := Decomp.bytes_pos r vr
+    have hlen : l.bytes.length = 2 ^ a * 2 ^ 10 := by rw [hs, f1]
+    have h10 : (2:Nat) ^ 10 = 1024 := by decide
+    have hdiv : l.bytes.length / 1024 = 2 ^ a := by rw [hlen, h10]; omega
+    -- the right part is no longer than the left one: leftLen is the largest power of two below the total
+    have hle : r.bytes.length ≤ 2 ^ a * 2 ^ 10 := by
+      have e : l.bytes.length + r.bytes.length - 2 ^ a * 2 ^ 10 = r.bytes.length := by omega
+      rw [e] at f3
+      obtain ⟨s1, s2, s3⟩ := Hs.nchunks_spec 10 r.bytes.length hr
+      have : Hs.nchunks 10 r.bytes.length * 2 ^ 10 ≤ 2 ^ a * 2 ^ 10 := Nat.mul_le_mul_right _ (by omega)
+      exact Nat.le_trans s2 this
+    simp only [Decomp.cv, Decomp.bytes, ihl t0 vl, ihr _ vr, hdiv]
+    exact subtree_compose key flags t0 a l.bytes r.bytes hlen hr hle
+
+/-- **…and at the root reproduces the whole-input root node**, hence (C01, C03) the one-shot hash
+and every byte of the extended output: `merge_subtrees_root` / `merge_subtrees_root_xof` of the two
+top-level decompositions' values is `Spec.rootNode` of all the bytes. -/
+theorem decomp_root (key : CV) (flags : UInt8) (l r : Decomp) (h : (Decomp.merge l r).Valid) :
+    Spec.parentNode key flags (l.cv key flags 0) (r.cv key flags (l.bytes.length / 1024))
+      = Spec.rootNode key flags (l.bytes ++ r.bytes) := by
+  obtain ⟨vl, vr, hn, hs⟩ := h
+  rw [decomp_cv key flags l 0 vl, decomp_cv key flags r _ vr,
+    root_compose key flags (l.bytes ++ r.bytes) (by simpa using hn)]
+  have hh : Hs.leftLen 10 (l.bytes ++ r.bytes).length = l.bytes.length := by rw [List.length_append]; exact hs.symm
+  rw [hh, List.take_left, List.drop_left]
+
+/-! ### the same, executed by the model of the hazmat API -/
+
+/-- a decomposition whose pieces are fed to their hasher by any sequence of updates -/
+inductive DecompM where
+  | piece (xs : List (List UInt8))
+  | merge (l r : DecompM)
+
+def DecompM.erase : DecompM → Decomp
+  | .piece xs => .piece xs.flatten
+  | .merge l r => .merge l.erase r.erase
+
+/-- run the decomposition on the model of `Hasher` + `hazmat` at SIMD degree `sd`: `none` when an
+assertion of the real code would fire (unaligned offset, piece longer than `max_subtree_len`,
+`finalize_non_root` on an empty piece, …) -/
+def DecompM.run (sd : Nat) (key : CV) (flags : UInt8) : Nat → DecompM → Option CV
+  | t0, .piece xs =>
+    ((Rs.Hasher.newInternal key flags).setInputOffset (t0 * 1024)).bind fun h0 =>
+    (xs.foldl (fun (o : Option Rs.Hasher) x => o.bind (fun h => h.update genK sd x)) (some h0)).bind fun h =>
+    h.finalizeNonRoot genK
+  | t0, .merge l r =>
+    (l.run sd key flags t0).bind fun a =>
+    (r.run sd key flags (t0 + l.erase.bytes.length / 1024)).bind fun b =>
+    some (Rs.chain genK (Rs.parentOutput key flags a b))
+
+/-- **Model run of any valid decomposition = the specification's subtree chaining value**: whenever
+the API calls go through (no assertion fires), at any SIMD degree, for any update history inside each
+piece, any nesting, any starting chunk counter. -/
+theorem decomp_run (sd j : Nat) (hsd : sd = 2 ^ j) (key : CV) (flags : UInt8) (d : DecompM) (t0 : Nat) (c : CV)
+    (hv : d.erase.Valid) (hlt : d.erase.bytes.length < 2 ^ 64) (hrun : d.run sd key flags t0 = some c) :
+    c = Spec.subtreeCV key flags t0 d.erase.bytes := by
+  rw [← decomp_cv key flags d.erase t0 hv]
+  induction d generalizing t0 c with
+  | piece xs =>
+    simp only [DecompM.run, Option.bind_eq_some_iff] at hrun
+    obtain ⟨h0, e0, h, e1, e2⟩ := hrun
+    have := finalize_non_root_eq_subtree_cv sd j hsd key flags (t0 * 1024) xs h0 h e0 e1 hv hlt
+    rw [this, Nat.mul_div_cancel _ (by omega)] at e2
+    exact (Option.some.inj e2).symm
+  | merge l r ihl ihr =>
+    simp only [DecompM.run, Option.bind_eq_some_iff] at hrun
+    obtain ⟨a, ea, b, eb, e⟩ := hrun
+    obtain ⟨vl, vr, _, _⟩ := hv
+    simp only [DecompM.erase, Decomp.bytes, List.length_append] at hlt
+    have ha := ihl t0 a vl (by omega) ea
+    have hb := ihr _ b vr (by omega) eb
+    rw [(merge_subtrees_eq_spec key flags a b).1] at e
+    simp only [DecompM.erase, Decomp.cv, ← ha, ← hb]
+    exact (Option.some.inj e).symm
+
+/-- non-vacuity: a nested decomposition of four chunks into four pieces is valid -/
+example : (Decomp.merge (Decomp.merge (.piece (List.replicate 1024 0)) (.piece (List.replicate 1024 1)))
+    (.merge (.piece (List.replicate 1024 2)) (.piece (List.replicate 1024 3)))).Valid := by
+  have e1 : Hs.leftLen 10 (1024 + 1024) = 1024 := Proofs.leftLen_pow 0
+  have e2 : Hs.leftLen 10 (1024 + 1024 + (1024 + 1024)) = 1024 + 1024 := Proofs.leftLen_pow 1
+  have ne : ∀ x : UInt8, List.replicate 1024 x ≠ [] := fun x =>
+    List.ne_nil_of_length_pos (by rw [List.length_replicate]; omega)
+  refine ⟨⟨ne 0, ne 1, ?_, ?_⟩, ⟨ne 2, ne 3, ?_, ?_⟩, ?_, ?_⟩ <;>
+    simp only [Decomp.bytes, List.length_append, List.length_replicate]
+  · omega
+  · exact e1.symm
+  · omega
+  · exact e1.symm
+  · omega
+  · exact e2.symm
+
 end B3.Props.C09
